@@ -275,12 +275,18 @@ def validate_vector_data_for_inference(data: list[Any]) -> tuple[tuple[int, ...]
     if not isinstance(first_item, np.ndarray):
         raise TypeError("Data elements must be numpy arrays or convertible.")
 
+    if first_item.ndim != 2:
+        raise ValueError("Data arrays must be two-dimensional (rows, num_fields).")
     inferred_num_fields = first_item.shape[1]
 
     for item in data:
         if isinstance(item, list):
             item = np.array(item)
-        if not isinstance(item, np.ndarray) or item.shape[1] != inferred_num_fields:
+        if (
+            not isinstance(item, np.ndarray)
+            or item.ndim != 2
+            or item.shape[1] != inferred_num_fields
+        ):
             raise ValueError("All data arrays must have same number of fields.")
 
     shape = (len(data),)
@@ -335,9 +341,9 @@ def validate_vector_data(data: list[Any], shape: tuple[int, ...], num_fields: in
             )
 
         # Check if the number of fields matches
-        if item.shape[1] != num_fields:
+        if item.ndim != 2 or item.shape[1] != num_fields:
             raise ValueError(
-                f"Data element at index {idx} must have {num_fields} fields, got {item.shape[1]}"
+                f"Data element at index {idx} must have shape (_, {num_fields}), got {item.shape}"
             )
 
         validated_data.append(item)
